@@ -19,11 +19,11 @@ public:
 
 	friend void swap(small_vector &a, small_vector &b) {
 		using std::swap;
+		small_vector tmp(a._allocator);
+		tmp._take(a);
+		a._take(b);
+		b._take(tmp);
 		swap(a._allocator, b._allocator);
-		swap(a._array, b._array);
-		swap(a._elements, b._elements);
-		swap(a._size, b._size);
-		swap(a._capacity, b._capacity);
 	}
 
 	small_vector(Allocator allocator = Allocator())
@@ -43,7 +43,7 @@ public:
 
 	small_vector(small_vector &&other)
 	: small_vector(other._allocator) {
-		swap(*this, other);
+		_take(other);
 	}
 
 	~small_vector() {
@@ -178,6 +178,26 @@ private:
 		
 		_elements = new_array;
 		_capacity = new_capacity;
+	}
+
+	// Takes over the contents of other; *this must be empty and use its inline storage.
+	// Inline elements are moved one by one (their bytes must not simply be copied), a heap buffer is handed over.
+	void _take(small_vector &other) {
+		if (other._is_small()) {
+			auto from = other._get_container();
+			auto to = _get_container();
+			for (size_t i = 0; i < other._size; i++) {
+				new (&to[i]) T(std::move(from[i]));
+				from[i].~T();
+			}
+		} else {
+			_elements = other._elements;
+			_capacity = other._capacity;
+			other._elements = nullptr;
+			other._capacity = N;
+		}
+		_size = other._size;
+		other._size = 0;
 	}
 
 	value_type *_get_container() {
